@@ -35,7 +35,7 @@ import halmos.__main__ as hm  # noqa: E402
 import halmos.sevm as hs  # noqa: E402
 import halmos.solve as hsolve  # noqa: E402
 import halmos.utils as hu  # noqa: E402
-from contracts.common import config  # noqa: E402
+from contracts.common import config, replay_script  # noqa: E402
 
 PROP = "C11"
 
@@ -411,20 +411,31 @@ def replay_ground_constraint(r):
 
 
 class RecFile:
-    def __init__(self):
-        self.text = None
+    """stands for the pathlib.Path of the query file; `stale` = a file of that name is already there (same test name in
+    another contract, an earlier depth of the invariant probe, an earlier run) holding another query"""
+
+    def __init__(self, stale=False):
+        self.text = "STALE QUERY OF ANOTHER PATH" if stale else None
 
     def write_text(self, t):
         self.text = t
 
+    def exists(self):
+        return self.text is not None
+
+    is_file = exists
+
+    def read_text(self):
+        return self.text
+
 
 def dump_cases():
     out = []
-    for cache, refined in ((False, False), (True, False), (False, True), (True, True)):
+    for cache, refined, stale in ((False, False, False), (True, False, False), (False, True, False), (True, True, False), (False, False, True), (True, True, True)):
 
-        def harness(interp, cache=cache, refined=refined):
+        def harness(interp, cache=cache, refined=refined, stale=stale):
             ctx = interp.ctx
-            f = RecFile()
+            f = RecFile(stale)
             q = hs.SMTQuery("QUERY", ["7", "42"])
 
             class PC:
@@ -442,7 +453,7 @@ def dump_cases():
                 want = "(set-logic QF_AUFBV)\nQUERY\n(check-sat)\n(get-model)\n"
             ctx.oblige("file-text-structure", z3.BoolVal(f.text == want), info={"got": str(f.text)[:300]})
 
-        out.append(Case(f"{PROP}/solve.dump", f"cache={cache}" + (",refined" if refined else ""), harness, replay=replay_dump_refined, sources=("halmos.solve:dump",)))
+        out.append(Case(f"{PROP}/solve.dump", f"cache={cache}" + (",refined" if refined else "") + (",file-exists" if stale else ""), harness, replay=replay_script("stale_query_file.py", "a query file of the same name already exists") if stale else replay_dump_refined, sources=("halmos.solve:dump",)))
     return out
 
 
@@ -496,6 +507,13 @@ def build_cases(tier="quick"):
     from contracts import c05
 
     ref = [Case(f"{PROP}/solve.solve_low_level#query-of-this-path", c.case, c.harness, replay=c.replay, sources=c.sources) for c in c05.timeout_cases()]
+    # a path whose failure was stored before it was activated is solved with its pending condition (C13's unit); the named
+    # assertions written by dump() switch every condition on only if to_smt2 exports every id (C16's unit)
+    from contracts import c13, c16
+    from contracts.common import rewrap
+
+    ref += rewrap(PROP, c13.delayed_error_cases(), "pending-condition-in-query")
+    ref += rewrap(PROP, c16.pin_cases(), "every-condition-named", lambda c: "to_smt2" in c.unit)
     return to_smt2_cases() + path_growth_cases() + dump_cases() + refine_ctx_cases() + ref
 
 
